@@ -1,13 +1,15 @@
 //verif:package github.com/kstenerud/go-concise-encoding/internal/verifh/c09
-//verif:bounds the real cbe.Marshaler and cbe.Unmarshaler (sessions, builders, error wind-up) on 5 values with symbolic payloads (list of integers and strings, nested lists, map of lists, typed struct with slice and pointer fields, typed []string), the document cut at every position
+//verif:bounds the real cbe.Marshaler and cbe.Unmarshaler (sessions, builders, error wind-up) on 5 values with symbolic payloads (list of integers and strings, nested lists, map of lists, typed struct with slice and pointer fields, typed []string, an untyped list with a marked list and a reference to it written event by event), the document cut at every position
 //verif:assume reflect, sync.Map and WaitGroup are the engine's emulation / sequential model; "prefix" for untyped values: a list holds a leading part of the original elements (the last one possibly itself a prefix), a map holds some of the original entries (values possibly prefixes), scalars are equal; for the typed struct every field is zero or equal / a prefix
 package c09
 
 import (
 	"github.com/kstenerud/go-concise-encoding/cbe"
+	"github.com/kstenerud/go-concise-encoding/ce/events"
 	"github.com/kstenerud/go-concise-encoding/configuration"
 	"github.com/kstenerud/go-concise-encoding/internal/verifh"
 	"github.com/kstenerud/go-concise-encoding/internal/verifrt"
+	"github.com/kstenerud/go-concise-encoding/rules"
 )
 
 // prefixOf: is partial a prefix of full (untyped values as the builders make them)?
@@ -77,6 +79,13 @@ func same(a, b interface{}) bool {
 
 type P9Inner struct{ A uint16 }
 
+type P9Wide struct {
+	N     uint32
+	Extra uint64
+	L     []string
+	Z     uint8
+}
+
 type P9Struct struct {
 	N uint32
 	L []string
@@ -85,7 +94,7 @@ type P9Struct struct {
 }
 
 func Verif_C09_PartialResultIsPrefix() {
-	which := verifrt.Choice("value", 5)
+	which := verifrt.Choice("value", 7)
 	a, b := verifrt.U64("a"), verifrt.U64("b")
 	s := verifrt.Bytes("s", 2)
 	for _, c := range s {
@@ -103,10 +112,30 @@ func Verif_C09_PartialResultIsPrefix() {
 		value, template = P9Struct{N: uint32(a), L: []string{string(s), "x"}, P: &P9Inner{A: uint16(b)}, Z: 9}, P9Struct{}
 	case 4:
 		value, template = []string{string(s), "second", "third"}, []string{}
+	case 6: // the document has a field ("Extra") that the template lacks
+		value, template = P9Wide{N: uint32(a), Extra: b, L: []string{string(s), "x"}, Z: 9}, P9Struct{}
 	}
 	cfg := configuration.New()
 	sink := &verifh.Sink{}
-	if err := cbe.NewMarshaler(cfg).Marshal(value, sink); err != nil {
+	if which == 5 {
+		// a document with a marker and a reference, written event by event:
+		// [a "s" &m:[b] $m]
+		enc := cbe.NewEncoder(cfg)
+		enc.PrepareToEncode(sink)
+		r := rules.NewRules(enc, cfg)
+		r.OnBeginDocument()
+		r.OnVersion(0)
+		r.OnList()
+		r.OnPositiveInt(a)
+		r.OnStringlikeArray(events.ArrayTypeString, string(s))
+		r.OnMarker([]byte("m"))
+		r.OnList()
+		r.OnPositiveInt(b)
+		r.OnEndContainer()
+		r.OnReferenceLocal([]byte("m"))
+		r.OnEndContainer()
+		r.OnEndDocument()
+	} else if err := cbe.NewMarshaler(cfg).Marshal(value, sink); err != nil {
 		verifrt.Assume(false)
 	}
 	doc := sink.Buf
@@ -115,22 +144,27 @@ func Verif_C09_PartialResultIsPrefix() {
 	verifrt.Assume(cut < len(doc))
 	full, err := cbe.NewUnmarshaler(cfg).UnmarshalFromDocument(doc, template)
 	verifrt.Assert(err == nil, "the whole document unmarshals")
+	verifrt.Known("KF-C09-marker-cut-self-append", which == 5)
 	partial, err := cbe.NewUnmarshaler(cfg).UnmarshalFromDocument(doc[:cut], template)
 	verifrt.Reach("cut")
 	verifrt.Assert(err != nil, "a truncated document makes Unmarshal return an error")
 	switch which {
-	case 0, 1, 2:
+	case 0, 1, 2, 5:
 		verifrt.Assert(prefixOf(partial, full), "the partial result is a prefix of the full value")
-	case 3:
+	case 3, 6:
 		f := full.(*P9Struct)
 		p, ok := partial.(*P9Struct)
+		if which == 6 {
+			verifrt.Assert(ok && p != nil, "a partial struct is returned (what was decoded before the cut is not thrown away)")
+			verifrt.Assert(cut < 16 || p.N == f.N, "a field decoded before the cut is present")
+		}
 		if partial == nil || (ok && p == nil) {
 			return
 		}
 		verifrt.Assert(ok, "the partial result has the template's type")
 		verifrt.Assert(verifrt.Or(p.N == 0, p.N == f.N), "partial struct: a field is unset or holds its value")
 		verifrt.Assert(verifrt.Or(p.Z == 0, p.Z == f.Z), "partial struct: a field is unset or holds its value (last field)")
-		verifrt.Assert(p.P == nil || p.P.A == 0 || p.P.A == f.P.A, "partial struct: pointer field is unset or leads to its value")
+		verifrt.Assert(p.P == nil || f.P == nil || p.P.A == 0 || p.P.A == f.P.A, "partial struct: pointer field is unset or leads to its value")
 		verifrt.Assert(len(p.L) <= len(f.L), "partial struct: no extra list elements")
 		for i := range p.L {
 			verifrt.Assert(p.L[i] == f.L[i] || (i == len(p.L)-1 && p.L[i] == ""), "partial struct: list elements present are the original ones")
